@@ -51,10 +51,12 @@ Theorem write_error_refuted_threaded_notlast :
   recorded_healthy (ro_content (w_run r)) 3 = true /\ nth 3 (nth 0 (ro_parity (w_run r)) []) PNone = PJunk 4.
 Proof. vm_compute. repeat split. Qed.
 
-(* threaded, the failing write is the last one queued: never collected, exit 0 *)
-Theorem write_error_refuted_threaded_last :
+(* threaded, the failing write is the last one queued: since the repair 1304269 of F-C08-last-writer-errors-lost its report is
+   collected by the end-of-run flush and the exit status is failing (FaultProofs.write_error_exit_safe); the stripe is
+   nevertheless recorded synced over the old block *)
+Theorem write_error_last_recorded_synced :
   let r := wrun (Threaded 3) 7 in
-  w_nfail r = 1 /\ run_failing (w_run r) = false /\ length (w_lost r) = 1 /\
+  w_nfail r = 1 /\ run_failing (w_run r) = true /\ length (w_lost r) = 0 /\
   recorded_healthy (ro_content (w_run r)) 7 = true /\ nth 7 (nth 0 (ro_parity (w_run r)) []) PNone = PJunk 8.
 Proof. vm_compute. repeat split. Qed.
 
